@@ -428,6 +428,7 @@ class Interp:
                         src_ = n_.module or ""
                     for a_ in n_.names:
                         self.fn_imports[a_.asname or a_.name] = (src_, a_.name)
+        self.pos_norms = []        # AVs that are the euclidean length of a position (affine weight 1)
         self.partial_stores = {}   # array name -> store through a proper part of its rows that changed the affine weight of that part
         self.yields = []         # (node, AV) values produced by a generator function
         self.appended = {}       # id(call) -> shape of the value appended by that call
@@ -744,6 +745,11 @@ class Interp:
 
     def sv_BinOp(self, e, env):
         a, b = self.sv(e.left, env), self.sv(e.right, env)
+        if isinstance(e.op, ast.Div) and b is not None and b.normof is not None and b.normof == "rows:" + au.src(e.left):
+            # X / norm(X, axis=-1, keepdims=True): every row of X divided by its own length, whatever X is
+            out = SV(isvec=True, unorm=True, vid=self.new_vid())
+            out.arr = True
+            return out
         if a is None or b is None:
             return None
         out = self._sv_BinOp(e, a, b)
@@ -934,7 +940,12 @@ class Interp:
                 return out
             return SV(isvec=True)
         if tail == "norm":
-            return SV(normof=au.src(first_node) if first_node is not None else None)
+            ax_ = next((k.value for k in c.keywords if k.arg == "axis"), c.args[2] if len(c.args) > 2 else None)
+            kd_ = next((k.value for k in c.keywords if k.arg == "keepdims"), None)
+            rowwise = ax_ is not None and au.const(ax_) in (1, -1) and kd_ is not None and au.const(kd_) is True
+            if ax_ is not None and not rowwise:
+                return SV()
+            return SV(normof=("rows:" if rowwise else "") + au.src(first_node) if first_node is not None else None)
         if tail in ("sin", "cos") and first is not None and first.sx is not None and len(c.args) == 1:
             k = first.sx.key()
             name = f"{tail}⟨{k}⟩"
@@ -1986,6 +1997,8 @@ class Interp:
         if isinstance(op, (ast.Mult, ast.MatMult)):
             return AV(mul_deg(a.deg, b.deg), mul_aff(a.aff, b.aff), deps, shape, None, None, missing)
         if isinstance(op, (ast.Div, ast.FloorDiv)):
+            if a.aff == F1 and a.deg == F1 and any(b is x_ for x_ in self.pos_norms) and any(a_ == 1 for d_, a_ in self.cfg.geo.values()):
+                self.event(node, "position-normalised", au.src(node.left)[:80] if isinstance(node, ast.BinOp) else "")
             aff = a.aff if (a.aff in (F0, ANY) and b.aff in (F0, ANY)) else None
             return AV(mul_deg(a.deg, b.deg, -1), F0 if aff == F0 else aff, deps, shape, None, None, missing)
         if isinstance(op, ast.Mod):
@@ -2420,8 +2433,14 @@ class Interp:
             d = first.deg if first is not None else None
             return AV(ANY if d == ANY else F0, F0, alldeps, first.shape if first is not None else None)
         if tail == "norm":
-            return AV(first.deg if first is not None else None, F0, alldeps, None)
+            out_ = AV(first.deg if first is not None else None, F0, alldeps, None)
+            if first is not None and first.aff == F1 and first.deg == F1:
+                self.pos_norms.append(out_)       # the length of a *position* (it changes when the origin moves)
+            return out_
         if tail in ("normalized", "normalize"):
+            if first is not None and first.aff == F1 and first.deg == F1 and any(a_ == 1 for d_, a_ in self.cfg.geo.values()):
+                # a direction obtained by normalising a position instead of an offset from the centre: not translation covariant
+                self.event(c, "position-normalised", au.src(c.args[0] if c.args else c.func.value)[:80])
             return AV(F0 if first is not None else None, F0 if (first is not None and first.aff in (F0, ANY)) else None, alldeps,
                       first.shape if first is not None else None)
         if tail in ROT and args:
